@@ -42,14 +42,39 @@ pub fn c17_tree() -> TreeProp {
 }
 
 #[derive(Clone, Debug, Hash)]
-pub enum RawCase { Dec(Vec<u8>), Json(Vec<u8>) }
+pub enum RawCase {
+  Dec(Vec<u8>), Json(Vec<u8>),
+  /// `source()` of a ReplaceSource with arbitrary positions (inside and outside the documented domain): the checked model
+  /// (Model/Checked.lean) must trap exactly when the crate panics
+  Repl(String, Vec<ReplT>),
+  /// a SourceMapSource over a completely wild map (unsorted, junk mappings string), streamed in one of the four modes
+  Sm(String, SMapT, bool, bool),
+}
+impl RawCase {
+  fn tree_ops(&self) -> Option<(T, Vec<Op>)> {
+    match self {
+      RawCase::Repl(t, rs) => Some((T::Replace(Box::new(T::RawStr(t.clone())), rs.clone()), vec![Op::Src])),
+      RawCase::Sm(t, m, c, f) => Some((T::Sms { text: t.clone(), name: "g.js".into(), map: m.clone(), orig: None, inner: None, remove: false }, vec![Op::Stream(*c, *f)])),
+      _ => None,
+    }
+  }
+  fn show(o: &Out) -> String { match o { Out::Panic(_) => "trap".into(), Out::Text(t) => format!("src {}", hx(t)), Out::Stream(s) => format!("{:?}", s), o => format!("{:?}", o) } }
+  /// every replacement position on a char boundary of the text or beyond its end
+  fn repl_in_domain(t: &str, rs: &[ReplT]) -> bool { rs.iter().all(|r| [r.start, r.end].iter().all(|p| *p as usize >= t.len() || t.is_char_boundary(*p as usize))) }
+}
 
 impl SimpleCase for RawCase {
-  fn reqs(&self) -> Vec<String> { match self { RawCase::Dec(s) => vec![format!("dec {}", hx(s))], RawCase::Json(_) => vec![] } }
+  fn reqs(&self) -> Vec<String> {
+    match self {
+      RawCase::Dec(s) => vec![format!("dec {}", hx(s))], RawCase::Json(_) => vec![],
+      _ => { let (t, ops) = self.tree_ops().unwrap(); let mut v = vec!["reset".to_string(), format!("tree A {}", t.proto())]; for op in &ops { v.push(op_proto("A", op)); } v }
+    }
+  }
   fn run_impl(&self) -> Vec<String> {
     match self {
       RawCase::Dec(s) => { let st = String::from_utf8_lossy(s).to_string(); vec![match catch(|| crate::attr::decode(&st)) { Ok(ms) => { let mut x = ms.len().to_string(); for m in &ms { x.push(' '); x.push_str(&m.proto()); } x } Err(m) => format!("panic {}", panic_kind(&m)) }] }
       RawCase::Json(_) => vec![],
+      _ => { let (t, ops) = self.tree_ops().unwrap(); let mut v = vec!["ok".to_string(), "ok".to_string()]; v.extend(run_impl(&t, &ops).iter().map(RawCase::show)); v }
     }
   }
   fn oracle(&self, outs: &[String]) -> Vec<Finding> {
@@ -61,16 +86,65 @@ impl SimpleCase for RawCase {
         match r { Ok((a, c, d)) => if a.map_or(false, |a| a != c) || c != d { vec![finding("parsers-agree", format!("from_json/from_slice/from_reader disagree on {:?}: {:?} {c} {d}", String::from_utf8_lossy(b), a))] } else { vec![] },
           Err(m) => vec![finding("parser-no-panic", format!("parsing {:?} panicked: {m}", String::from_utf8_lossy(b)))] }
       }
+      // source() must not panic when every position is on a char boundary or beyond the end (outside that domain a panic is allowed,
+      // and the checked model must predict it: that is the correspondence part)
+      RawCase::Repl(t, rs) => if outs.get(2).map_or(false, |o| o == "trap") && RawCase::repl_in_domain(t, rs) { vec![finding("source-no-panic", format!("ReplaceSource({:?}, {:?}).source() panicked", t, rs.iter().map(|r| (r.start, r.end)).collect::<Vec<_>>()))] } else { vec![] },
+      // a lone SourceMapSource never panics while streaming, whatever the map
+      RawCase::Sm(t, m, c, f) => if outs.get(2).map_or(false, |o| o == "trap") { vec![finding("splitter-no-panic", format!("SourceMapSource({:?}, mappings {:?}) panicked streaming columns={c} final={f}", t, m.mappings))] } else { vec![] },
     }
   }
-  fn project(&self, outs: &[String]) -> Vec<String> { outs.to_vec() }
-  fn nontrivial(&self) -> bool { match self { RawCase::Dec(s) => s.len() >= 3, RawCase::Json(b) => b.len() >= 3 } }
-  fn stats(&self, _o: &[String], d: &mut BTreeMap<String, u64>) { match self { RawCase::Dec(s) => { *d.entry("decoder-string".into()).or_default() += 1; if s.windows(13).any(|w| w.iter().all(|b| b"ghijklmnopqrstuvwxyz0123456789+/".contains(b))) { *d.entry("decoder:>=13-continuation-digits".into()).or_default() += 1; } } RawCase::Json(b) => { *d.entry("json-bytes".into()).or_default() += 1; if SourceMap::from_slice(b).is_ok() { *d.entry("json:accepted".into()).or_default() += 1; } } } }
-  fn shrink(&self) -> Vec<Self> { match self { RawCase::Dec(s) => (0..s.len()).map(|i| { let mut x = s.clone(); x.remove(i); RawCase::Dec(x) }).collect(), RawCase::Json(s) => (0..s.len()).map(|i| { let mut x = s.clone(); x.remove(i); RawCase::Json(x) }).collect() } }
+  fn project(&self, outs: &[String]) -> Vec<String> {
+    match self.tree_ops() {
+      None => outs.to_vec(),
+      // driver answers are parsed and shown in the same form as the implementation's
+      Some((_, ops)) => outs.iter().enumerate().map(|(i, o)| if i < 2 || o == "trap" || o.starts_with("src ") || o.starts_with("SRes") { o.clone() } else { RawCase::show(&parse_out(&ops[i - 2], o)) }).collect(),
+    }
+  }
+  fn nontrivial(&self) -> bool { match self { RawCase::Dec(s) => s.len() >= 3, RawCase::Json(b) => b.len() >= 3, RawCase::Repl(t, rs) => !rs.is_empty() && !t.is_ascii(), RawCase::Sm(_, m, ..) => m.mappings.len() >= 3 } }
+  fn stats(&self, _o: &[String], d: &mut BTreeMap<String, u64>) { match self { RawCase::Dec(s) => { *d.entry("decoder-string".into()).or_default() += 1; if s.windows(13).any(|w| w.iter().all(|b| b"ghijklmnopqrstuvwxyz0123456789+/".contains(b))) { *d.entry("decoder:>=13-continuation-digits".into()).or_default() += 1; } } RawCase::Json(b) => { *d.entry("json-bytes".into()).or_default() += 1; if SourceMap::from_slice(b).is_ok() { *d.entry("json:accepted".into()).or_default() += 1; } }
+    RawCase::Repl(t, rs) => { *d.entry("replace-source-any-positions".into()).or_default() += 1; if !RawCase::repl_in_domain(t, rs) { *d.entry("replace-source:off-boundary".into()).or_default() += 1; } if _o.get(2).map_or(false, |o| o == "trap") { *d.entry("replace-source:impl-panics (predicted by the checked model)".into()).or_default() += 1; } }
+    RawCase::Sm(_, m, ..) => { *d.entry("splitter-wild-map".into()).or_default() += 1; let segs = crate::attr::decode(&m.mappings); if segs.windows(2).any(|w| (w[1].gl, w[1].gc) < (w[0].gl, w[0].gc)) { *d.entry("splitter:unsorted-map".into()).or_default() += 1; } if segs.iter().any(|x| x.gl > 1000) { *d.entry("splitter:line>1000".into()).or_default() += 1; } } } }
+  fn shrink(&self) -> Vec<Self> { match self { RawCase::Dec(s) => (0..s.len()).map(|i| { let mut x = s.clone(); x.remove(i); RawCase::Dec(x) }).collect(), RawCase::Json(s) => (0..s.len()).map(|i| { let mut x = s.clone(); x.remove(i); RawCase::Json(x) }).collect(),
+    RawCase::Repl(t, rs) => (0..rs.len()).map(|i| { let mut x = rs.clone(); x.remove(i); RawCase::Repl(t.clone(), x) }).collect(),
+    RawCase::Sm(t, m, c, f) => { let b = m.mappings.as_bytes(); (0..b.len()).map(|i| { let mut x = b.to_vec(); x.remove(i); RawCase::Sm(t.clone(), SMapT { mappings: String::from_utf8_lossy(&x).to_string(), ..m.clone() }, *c, *f) }).collect() } } }
 }
 
 pub fn gen_raw(rng: &mut Rng, _thorough: bool) -> RawCase {
-  if rng.chance(2) {
+  let k = rng.below(4);
+  if k == 2 {
+    // multi-byte text, replacement positions anywhere (mostly small, sometimes far beyond the end), any order, end < start
+    let t = text(rng, 10, true);
+    let n = rng.below(4);
+    let rs = (0..n).map(|_| { let p = |rng: &mut Rng| if rng.chance(8) { 1000 + rng.below(5) as u32 } else { rng.below(t.len() + 3) as u32 };
+      ReplT { start: p(rng), end: p(rng), content: text(rng, 3, true), name: None, enforce: rng.below(3) as u8 } }).collect();
+    return RawCase::Repl(t, rs)
+  }
+  if k == 3 {
+    // junk mappings string: unsorted, huge lines / columns / indices
+    let mb = rng.chance(2); let t = text(rng, 12, mb);
+    let n = rng.below(24); let mut s = String::new();
+    let structured = rng.chance(2);
+    if structured {
+      // structured but unsorted: segments of 1 / 4 / 5 fields with deltas of either sign, occasionally huge
+      let vlq = |mut v: i64, out: &mut String| { let mut x: u64 = if v < 0 { v = -v; ((v as u64) << 1) | 1 } else { (v as u64) << 1 }; loop { let mut d = (x & 31) as usize; x >>= 5; if x != 0 { d |= 32; } out.push(b"ABCDEFGHIJKLMNOPQRSTUVWXYZabcdefghijklmnopqrstuvwxyz0123456789+/"[d] as char); if x == 0 { break } } };
+      for i in 0..rng.below(8) {
+        if i > 0 { s.push(if rng.chance(3) { ';' } else { ',' }); }
+        let k = [1, 4, 4, 5][rng.below(4)];
+        for _ in 0..k { let v = if rng.chance(12) { (rng.below(1 << 20) as i64) << rng.below(12) } else { rng.below(12) as i64 - 4 }; vlq(v, &mut s); }
+      }
+    }
+    while !structured && s.len() < n {
+      match rng.below(10) {
+        0 => { for _ in 0..rng.below(6) { s.push(*rng.pick(b"ghijklmnopqrstuvwxyz0123456789+/") as char); } s.push(*rng.pick(b"ABCDEFGHIJKLMNOPQRSTUVWXYZabcdef") as char); }
+        1 | 2 => s.push(*rng.pick(b",;;") as char),
+        _ => s.push(*rng.pick(b"ABCDEFGHIJKLMNOPQRSTUVWXYZabcdefghijklmnopqrstuvwxyz0123456789+/") as char),
+      }
+    }
+    let ns = rng.below(3);
+    let m = SMapT { mappings: s, sources: (0..ns).map(|i| format!("s{i}.js")).collect(), contents: (0..rng.below(ns + 1)).map(|_| text(rng, 6, true)).collect(), names: (0..rng.below(3)).map(|i| format!("n{i}")).collect(), file: None, root: if rng.chance(3) { Some("r".into()) } else { None }, debug_id: None };
+    return RawCase::Sm(t, m, rng.chance(2), rng.chance(2))
+  }
+  if k == 0 {
     // junk over base64 + separators + arbitrary bytes, long continuation runs, huge deltas
     let n = rng.below(40); let mut s = vec![];
     while s.len() < n {
